@@ -34,7 +34,6 @@ KNOWN_KEYS = {
     "adf21-elem": "c08:adf21-element-header-not-checked",
     "adf22-elem": "c08:adf22-element-header-not-checked",
     "adf11-small": "c08:adf11-unresolved-small-density-grid-misread",
-    "adf12-100": "c08:adf12-block-count-over-99-truncated",
 }
 
 
@@ -262,9 +261,7 @@ def gen_cases(ctx, E):
     blocks = W.gen_adf12(rng, nblocks=rng.choice([100, 104, 123]))
     c = Case("adf12", "blocks>=100", W.write_adf12(blocks, annotate=False), tokens=blocks)
     c.expected = exp_adf12(W.expected_adf12(blocks))
-    c.known = "adf12-100"
-    c.model_expected = False
-    c.model = "parse_adf12 (lines FILE)"
+    c.model = "parse_adf12 (lines FILE)"      # a normal passing case since fix b20e7d4 (count read from the whole I5 field)
     c.python_only = q        # 200 kB of text: the Coq side of this class runs in the thorough tier
     cases.append(c)
 
@@ -664,7 +661,15 @@ def run(ctx):
         lines.append("Eval vm_compute in (failing results).")
         paths.append((ctx.write_gen("cases_%03d.v" % fi, "\n".join(lines) + "\n"), checks))
     ctx.log("running coqc on %d case files" % len(paths))
-    res = coqc_many([p for p, _ in paths], timeout=1500) if rx_ok else {}
+    res = coqc_many([p for p, _ in paths], timeout=1500, jobs=16 if ctx.quick else 10) if rx_ok else {}
+    # a coqc process that dies without an error message (killed under memory pressure on a shared machine) is re-run alone
+    for p, _ in paths:
+        for _attempt in range(3):
+            ok, out = res.get(p, (True, ""))
+            if ok or "Error" in out or "TIMEOUT" in out:
+                break
+            ctx.log("re-running %s (coqc exited without an error message)" % os.path.basename(p))
+            res[p] = coqc(p, timeout=1500)
     diffs = []
     n_checks = 0
     for p, checks in paths:
